@@ -212,8 +212,9 @@ def export_import(c):
             return None
         _selftest(c, "TraceRel_C43.cfg", tr, corrupt, "one imported balance altered")
     c.cov["distinct_nontrivial"] = rep.get("nontrivial", 0)
-    return c.finish(rule="scenarios = random 10-16 block chains x {features that add parameters on/off} x {unstaking records at export "
-                         "time yes/no}; each exported, imported into a fresh process, projections compared by TraceRel with the listed "
+    return c.finish(rule="scenarios = {random 10-16 block chains, chains with pending claims of two servicers} x {features that add "
+                         "parameters on/off} x {unstaking records at export time yes/no}; the claims section of the exported document is "
+                         "compared with the exported state as such; each exported, imported into a fresh process, projections compared by TraceRel with the listed "
                          "known findings excluded by named predicates", exhaustive=False)
 
 
@@ -242,7 +243,9 @@ PROPERTIES = {
             "engine_path": "spec/rel + harness/cmd/vh-rel + checks/rel.py",
             "technique": "export/import of real application state in separate processes; projections compared by TLC against TraceRel.tla's C43 predicate with named known-finding exclusions",
             "text": "Random chains are exported at a late height and the export is fed to InitChain of a fresh application; the TLA+ "
-                    "predicate compares every field the property names and classifies each discrepancy as a listed known finding or a violation.",
+                    "predicate compares every field the property names and classifies each discrepancy as a listed known finding or a violation. "
+                    "Half of the scenarios export while claims of two different servicers are pending; the claims listed in the exported "
+                    "document are compared with the exported state even when the import does not complete.",
             "note": NOTE + " The unchanged tree has four listed findings (see known_findings.json); until they are repaired an import only completes for chains without unstaking records and without parameter-adding features."},
 }
 ENGINE_KIND = "two-node / multi-run relational harness over the real PocketCoreApp with a TLA+ model of cache and store read paths"
